@@ -99,7 +99,7 @@ pub fn run(ctx: &Ctx) -> Report {
     crate::shim::bypass(|| std::fs::create_dir_all(scratch.p("TMP")).unwrap());
     let root = scratch.p("w");
     crate::shim::bypass(|| std::fs::create_dir_all(&root).unwrap());
-    let sizes: Vec<usize> = if ctx.tier == Tier::Thorough { vec![1, 17, 8193, 70_000] } else { vec![17] };
+    let sizes: Vec<usize> = if ctx.tier == Tier::Thorough { vec![1, 17, 8193, 70_000] } else { vec![17, 8193] };
     for (i, os) in all_cases(&sizes).into_iter().enumerate() {
         if !ctx.mine(i as u64) {
             continue;
